@@ -90,6 +90,16 @@ REGISTRY = {
                     "c08:orphan-response": 500, "c08:separate-selected": 300, "c08:separate-ignored": 300, "c08:second-connection": 200,
                     "c08:own-select-accepted": 300, "c08:own-select-refused": 50, "c08:data-not-selected": 500, "c08:data-delivered": 300},
     },
+    "C09": {
+        "level": "fault_enumeration",
+        "claim": "Send programs (sync W / no-W, async, reply, forward; unique tokens; concurrent goroutines) on 1-3 consecutive TCP generations of one open connection, each generation ended by a fault drawn from: peer close, reset, reply-then-close in one instant, stalled reader with a full async queue then reset, reset after a drawn byte count (mid-frame), T8 stall, dead linktest, Separate.req, write timeout, Close(); the raw peer records the generation of every frame and replays stale replies on the next generation. Checked: no token crosses generations, no reply completes a send of another generation, pending calls return at the instant the generation ends with the connection-closed error, queued async frames are never flushed later.",
+        "trust": "HSMS-SS only (SECS-I generations are exercised by C18's reconnect cases, not here). While the peer's window is closed the program is restricted to one writing goroutine (testing/synctest cannot advance time while a goroutine waits on the write mutex).",
+        "technique": "property-based testing (rapid): generated fault plans x send programs on scripted connections in testing/synctest, generation-window invariant over the wire history",
+        "tests": [
+            {"name": "TestC09Generations", "shards": 8, "shards_thorough": 16},
+        ],
+        "require": {"c09:fault:close": 1023, "c09:fault:cut-mid-frame": 428, "c09:fault:linktest-dead": 419, "c09:fault:peer-close": 819, "c09:fault:peer-reset": 798, "c09:fault:reply-then-close": 568, "c09:fault:separate": 412, "c09:fault:stall-queue-reset": 559, "c09:fault:t8-stall": 415, "c09:fault:write-timeout": 489, "c09:gens:1": 1024, "c09:gens:2": 1017, "c09:gens:3": 958, "c09:pending-at-fault": 3988, "c09:role:active": 1484, "c09:role:passive": 1515, "c09:stale-replies-played": 999},
+    },
     "C13": {
         "level": "exploration",
         "claim": 'Generated messages over the stated item grammar x all encoder options round-tripped through the strict encoder and strict parser; parser-accepted texts produced by a grammar-directed text generator re-encoded and re-parsed.',
